@@ -31,6 +31,7 @@ func (g *gen) drawOC() {
 	g.drawTypedefs()
 	var elems []*ocElem
 	for mi, m := range g.dataMods() {
+		m.scope.ocTop = true
 		n := g.intn(1, 2, "oc-roots")
 		if mi > 0 {
 			n = g.intn(0, 1, "oc-roots2")
